@@ -147,6 +147,8 @@ impl<T: Actor> ActorRef<T> {
             payload: Box::new(msg),
             reply_channel: None,     // reply_channel is None for tell
             actor_ref: self.clone(), // Include the actor ref for context
+            #[cfg(feature = "deadlock-detection")]
+            wait_token: None,
         };
 
         #[cfg(feature = "tracing")]
@@ -250,7 +252,7 @@ impl<T: Actor> ActorRef<T> {
         T::Reply: Send + 'static,
     {
         #[cfg(feature = "deadlock-detection")]
-        let _guard = {
+        let (_guard, wait_token) = {
             let caller = crate::CURRENT_ACTOR.try_with(|id| *id).ok();
             if let Some(caller) = caller {
                 let callee = self.identity();
@@ -264,10 +266,14 @@ impl<T: Actor> ActorRef<T> {
                          or restructure actor dependencies."
                     );
                 }
-                graph.insert(caller.id, callee);
-                Some(crate::WaitForGuard(caller.id))
+                let ticket = crate::next_wait_ticket();
+                graph.insert(caller.id, (callee, ticket));
+                (
+                    Some(crate::WaitForGuard(caller.id, ticket)),
+                    Some(crate::WaitForGuard(caller.id, ticket)),
+                )
             } else {
-                None
+                (None, None)
             }
         };
 
@@ -276,6 +282,8 @@ impl<T: Actor> ActorRef<T> {
             payload: Box::new(msg),
             reply_channel: Some(reply_tx),
             actor_ref: self.clone(), // Include the actor ref for context
+            #[cfg(feature = "deadlock-detection")]
+            wait_token,
         };
 
         #[cfg(feature = "tracing")]
@@ -516,6 +524,8 @@ impl<T: Actor> ActorRef<T> {
             payload: Box::new(msg),
             reply_channel: None,     // reply_channel is None for tell
             actor_ref: self.clone(), // Include the actor ref for context
+            #[cfg(feature = "deadlock-detection")]
+            wait_token: None,
         };
 
         #[cfg(feature = "tracing")]
@@ -654,6 +664,8 @@ impl<T: Actor> ActorRef<T> {
             payload: Box::new(msg),
             reply_channel: Some(reply_tx),
             actor_ref: self.clone(), // Include the actor ref for context
+            #[cfg(feature = "deadlock-detection")]
+            wait_token: None,
         };
 
         #[cfg(feature = "tracing")]
